@@ -40,9 +40,10 @@ type Prog struct {
 	sortsDeclared []string
 	specFiles     []string
 	specFunOrder  []string
-	madeIfaceSet map[string]bool
-	unbound      []unboundSpec
+	madeIfaceSet  map[string]bool
+	unbound       []unboundSpec
 	implCache     map[string][]implSpec
+	replayPin     *replayPin
 }
 
 func isRepoPath(p string) bool {
